@@ -44,8 +44,8 @@ fn opts_of(state: &H263State, cmd: &Value) -> DecoderOption {
     o
 }
 
-fn fresh_reader() -> (H263Reader<Growing>, Growing) {
-    let g = Growing { data: Rc::new(RefCell::new((Vec::new(), 0, 0))) };
+fn fresh_reader(maxread: usize) -> (H263Reader<Growing>, Growing) {
+    let g = Growing { data: Rc::new(RefCell::new((Vec::new(), 0, 0))), maxread };
     (H263Reader::from_source(g.clone()), g)
 }
 
@@ -117,14 +117,14 @@ pub fn history(ctx: &mut Ctx, cmd: &Value) -> Vec<Value> {
     let planes = cmd["planes"].as_bool().unwrap_or(true);
     match op {
         "new" => {
-            let (reader, src) = fresh_reader();
+            let (reader, src) = fresh_reader(cmd["maxread"].as_u64().unwrap_or(0) as usize);
             ctx.decs.insert(id, Dec { state: H263State::new(opts(cmd)), reader, src });
             ev["ret"] = json!("ok");
             ev["rc"] = json!("ok");
         }
         "newreader" => match ctx.decs.get_mut(&id) {
             Some(d) => {
-                let (reader, src) = fresh_reader();
+                let (reader, src) = fresh_reader(cmd["maxread"].as_u64().unwrap_or(d.src.maxread as u64) as usize);
                 d.reader = reader;
                 d.src = src;
                 ev["ret"] = json!("ok");
@@ -156,7 +156,7 @@ pub fn history(ctx: &mut Ctx, cmd: &Value) -> Vec<Value> {
                 // data and calls declaring more than 2^22 luma samples are skipped (and counted).
                 if cmd["guard_size"].as_bool().unwrap_or(false) {
                     let copy = bytes(&cmd["bytes"]);
-                    let g = Growing { data: Rc::new(RefCell::new((copy.clone(), copy.len(), 0))) };
+                    let g = Growing { data: Rc::new(RefCell::new((copy.clone(), copy.len(), 0))), maxread: 0 };
                     let mut rd = H263Reader::from_source(g);
                     let prev = d.state.get_last_picture().map(|p| p.as_header());
                     let parsed = guarded(|| decode_picture(&mut rd, opts_of(&d.state, cmd), prev));
@@ -269,7 +269,7 @@ pub fn history(ctx: &mut Ctx, cmd: &Value) -> Vec<Value> {
 pub fn header(cmd: &Value) -> Value {
     let mut ev = cmd.clone();
     let b = bytes(&cmd["bytes"]);
-    let g = Growing { data: Rc::new(RefCell::new((b.clone(), b.len(), 0))) };
+    let g = Growing { data: Rc::new(RefCell::new((b.clone(), b.len(), 0))), maxread: cmd["maxread"].as_u64().unwrap_or(0) as usize };
     let mut rd = H263Reader::from_source(g);
     let o = opts(cmd);
     let prev = build_prev(&cmd["prev"]);
@@ -706,6 +706,28 @@ pub fn threads(cmd: &Value) -> Vec<Value> {
         .map(|a| a.iter().map(|x| x.as_array().cloned().unwrap_or_default()).collect())
         .unwrap_or_default();
     let order: Option<Vec<usize>> = cmd["order"].as_array().map(|a| a.iter().map(|x| x.as_u64().unwrap_or(0) as usize).collect());
+    // "single": all instances live on ONE thread and their calls are interleaved in the given order
+    // (thread-local or otherwise per-thread state would be shared between them)
+    if cmd["single"].as_bool().unwrap_or(false) {
+        let ord = order.clone().unwrap_or_default();
+        let mut ctxs: Vec<Ctx> = insts.iter().map(|_| Ctx::default()).collect();
+        let mut next: Vec<usize> = insts.iter().map(|_| 0).collect();
+        let mut all: Vec<Vec<Value>> = insts.iter().map(|_| Vec::new()).collect();
+        for i in ord {
+            if i < insts.len() && next[i] < insts[i].len() {
+                let mut evs = history(&mut ctxs[i], &insts[i][next[i]]);
+                next[i] += 1;
+                for e in evs.iter_mut() {
+                    e["digest"] = digest(e);
+                }
+                all[i].extend(evs);
+            }
+        }
+        ev["ret"] = json!("ok");
+        ev["evs"] = json!(all);
+        ev.as_object_mut().unwrap().remove("insts");
+        return vec![ev];
+    }
     let turn = Arc::new((Mutex::new(0usize), Condvar::new()));
     let mut handles = Vec::new();
     for (i, cmds) in insts.into_iter().enumerate() {
